@@ -14,6 +14,7 @@ for id in "${ids[@]}"; do
   case $id in
     c13-g|c13-an|m1_global_memo|m2_racy_origins) eng=M ;;
     c13-ag|c13-aj) eng=W ;;
+    c13-am) eng=Ws ;;
     c13-af) eng=H,Hd,W ;;
     c13-j|c13-t|c13-ac|c13-ae) eng=Hs ;;
     *) eng=H,Hd ;;
